@@ -6,6 +6,7 @@ import Props.C06
 #print axioms SpyneModel.Props.C06.generated_schema_denotes
 #print axioms SpyneModel.Props.C06.generated_schema_denotes_same_ns
 #print axioms SpyneModel.Props.C06.leaf_literal_valid
+#print axioms SpyneModel.Props.C06.default_literal_valid
 #print axioms SpyneModel.Props.C06.lxml_soft_agree
 #print axioms SpyneModel.Props.C06.gen_compiles
 #print axioms SpyneModel.Props.C06.documents_and_imports
